@@ -67,5 +67,10 @@ func (tx *XATx) commitOnXA() error {
 	if !c.xaActive {
 		return fmt.Errorf("xa branch of xid:%s is not active any more: a statement failed and the branch was rolled back", tx.tx.tranCtx.XID)
 	}
-	return c.Commit(tx.ctx)
+	if err := c.Commit(tx.ctx); err != nil {
+		// (rolled back by Commit)
+		c.reportPhaseOneFailed()
+		return err
+	}
+	return nil
 }
